@@ -105,7 +105,9 @@ class C06(Prop):
             ],
             "timeout": None, "ext": [], "ties": case.get("ties", []),
         }
-        total_hi = sum(self.doc(tree, k)[1] for k in range(1, n))
+        # (k = 1..n, not n-1: the known index shift makes retry k wait what is documented for retry k+1; the ticker below
+        # must stay cheap in that world too, or the real-time cap -- inconclusive, not a violation -- would be hit)
+        total_hi = sum(self.doc(tree, k)[1] for k in range(1, n + 1))
         ticker = case.get("tick") if total_hi <= 100 else None
         if ticker:
             # a second, independently retrying step: its timers wake the loop at unrelated instants
